@@ -48,6 +48,12 @@ static bool find_non_storage_siblings(const Chunk *pc, Chunk * &prev, Chunk * &n
       prev = prev->GetPrevNcNnl();
    }
 
+   // A token on the other side of the end of a preprocessor line is not part of this type
+   if (!pc->IsSamePreproc(prev))
+   {
+      prev = Chunk::NullChunkPtr;
+   }
+
    // Return false if the last token indicates that this is not an integer type
    if (is_non_integer(prev))
    {
@@ -60,6 +66,11 @@ static bool find_non_storage_siblings(const Chunk *pc, Chunk * &prev, Chunk * &n
       next = next->GetNextNcNnl();
    }
 
+   if (!pc->IsSamePreproc(next))
+   {
+      next = Chunk::NullChunkPtr;
+   }
+
    // Return false if the next token indicates that this is not an integer type
    if (is_non_integer(next))
    {
@@ -67,7 +78,7 @@ static bool find_non_storage_siblings(const Chunk *pc, Chunk * &prev, Chunk * &n
    }
    // Return true if this is indeed an integer type
    return(true);
-}
+} // find_non_storage_siblings
 
 
 static void add_or_remove_int_keyword(Chunk *pc, Chunk *sibling, iarf_e action, E_Direction dir, Chunk * &int_keyword)
